@@ -79,7 +79,8 @@ class Ctx:
             # walking the folded views instead of the functions as written was tried (JL_TRACE_VIEWS=1) and rejected: in a merged commit body the flow-insensitive slice of a
             # written buffer reaches the checksum call, data writes are classified as header writes, and 60 obligations fail on the unchanged tree
             self._traces[key] = Trace(self.facts, entry, self.E.classify, classify_stmt=self.E.classify_stmt,
-                                      const_args=const_args, view=(self.x if os.environ.get('JL_TRACE_VIEWS', '0') == '1' else None))
+                                      const_args=const_args, view=(self.x if os.environ.get('JL_TRACE_VIEWS', '0') == '1' else None),
+                                      follow_drops=os.environ.get('JL_FOLLOW_DROPS', '1') == '1')
         return self._traces[key]
 
     def need(self, *names):
